@@ -1232,7 +1232,10 @@ def bc_broadcast_c08(ctx, pf):
                              ("fixedGradient(value)", lambda f: f.fixedGradient(val), (1.0, 0.0, want)),
                              ("fixedGradient(value, scale_coeffs=2.0)", lambda f: f.fixedGradient(val, 2.0), (2.0, 0.0, 2.0 * want)),
                              ("newtonCooling(1.5, 2.0, value)", lambda f: f.newtonCooling(1.5, 2.0, val), (1.5, 2.0, 2.0 * want)),
-                             ("newtonCooling(value, 2.0, 3.0)", lambda f: f.newtonCooling(val, 2.0, 3.0), (want, 2.0, 6.0))]
+                             ("newtonCooling(value, 2.0, 3.0)", lambda f: f.newtonCooling(val, 2.0, 3.0), (want, 2.0, 6.0)),
+                             ("newtonCooling(1.5, 2.0, value, reverse_direction=True)", lambda f: f.newtonCooling(1.5, 2.0, val, reverse_direction=True), (1.5, -2.0, -2.0 * want)),
+                             ("newtonCooling(1.5, 2.0, value, True)", lambda f: f.newtonCooling(1.5, 2.0, val, True), (1.5, -2.0, -2.0 * want)),
+                             ("fixedValue(7) then defaultNoFlux()", lambda f: (f.fixedValue(7.0), f.defaultNoFlux()), (1.0, 0.0, 0.0))]
                     for cn, call, (wa, wb, wc) in calls:
                         try:
                             B = pf.BoundaryConditions(mesh); f = getattr(B, side)
